@@ -275,3 +275,21 @@ package node
 //@   modifies *
 //@   assert@call TasksToMessages[C03.reconstruct.expansion] msgs == loc(signingTasks)
 //@   assert@call recoverFullSign[C03.reconstruct.payload] msg == loc(messages)[loc(messageID)].Payload && sigShares == loc(messagePartialSignatures)
+
+// ---- API entry points around executeOperation (C15)
+// the result handed back over the local API is answered field by field as submitted
+//@ func (*BaseNodeService).ProcessOperation
+//@   nosafety
+//@   requires s != nil && dto != nil
+//@   modifies *
+//@   modifies $mayWrite, $initEvent, $fx, $sends, $lastSent, $stored, $pend, $retired, $dos, $savedAtDo
+//@   assert@call executeOperation[C15.dto] operation.ID == dto.ID && string(operation.Type) == dto.Type && operation.Payload == dto.Payload && operation.ResultMsgs == dto.ResultMsgs && operation.DKGIdentifier == dto.DkgID && operation.To == dto.To && operation.Event == dto.Event && operation.ExtraData == dto.ExtraData
+
+// approving an invitation answers only an operation of the invitation type, in the name of the participant whose
+// registered key is this node's key, with exactly one added confirmation message
+//@ func (*BaseNodeService).ApproveParticipation
+//@   nosafety
+//@   requires s != nil && dto != nil
+//@   modifies *
+//@   modifies $mayWrite, $initEvent, $fx, $sends, $lastSent, $stored, $pend, $retired, $dos, $savedAtDo, $bufc
+//@   assert@call executeOperation[C15.approve] string(operation.Type) == "state_sig_proposal_await_participants_confirmations" && loc(pid) != -1 && operation.Event == "event_sig_proposal_confirm_by_participant" && len(operation.ResultMsgs) >= 1
